@@ -427,7 +427,7 @@ func genSoak(r *Rand, epochs int, spe uint64) (SoakInput, []string) {
 func TestC20(t *testing.T) {
 	col := NewCollector("C20", "Check.C20",
 		"a soak case is non-trivial when it has at least one started attestation job and one head event; a fan case when at least one provider answers")
-	col.ShardSize = 60
+	col.ShardSize = 25
 	zerolog.SetGlobalLevel(zerolog.TraceLevel) // as vouch's main does (logging.go)
 	rng := NewRand(Seed())
 	n := EnvInt("VERIF_N", 300)
@@ -524,7 +524,7 @@ func TestC20(t *testing.T) {
 			}
 			epochs := r.Range(1, 4)
 			switch {
-			case i < long:
+			case i%25 == 0 && i/25 < long: // one long soak per shard of 25 cases
 				epochs = r.Range(50, 60)
 				spe = 4
 			case i%5 == 0:
